@@ -11,7 +11,8 @@ whose composition is the requested {nuclide: number density} dictionary.
 Shape families (how the model's leaves are realised):
     circle   every leaf a solid Circle, Custom material, 25 C
     mixed    shapes cycle through every 2-D shape class, multiplicities 1/7, Custom material
-    derived  first leaf of a block = Hexagon ring that defines the pitch, last leaf = DerivedShape (left-over area)
+    derived  first leaf of a block = Hexagon ring that defines the pitch, last leaf = DerivedShape (left-over area);
+             every other block hot (HT9 ring / UZr pins / Sodium left-over at 450 C)
     hot      real materials (HT9 / UZr / Sodium) at 450 C from 25 C input: hot and cold dimensions differ
 """
 import math
@@ -70,9 +71,12 @@ def make_unshaped(name, area, material="Custom", tin=25.0, thot=25.0):
     return _cls("UnshapedComponent")(name, material, Tinput=tin, Thot=thot, area=area)
 
 
-def _materials(family, i):
+def _materials(family, i, salt=0, last=False):
     if family == "hot":
-        return (["HT9", "UZr", "HT9"][i % 3], 25.0, 450.0)
+        return (["HT9", "UZr", "HT9"][(i + salt) % 3], 25.0, 450.0)
+    if family == "derived" and salt % 2 == 1:
+        # every other block of the derived family is hot: steel ring, fuel pins, sodium as the left-over shape
+        return ("Sodium" if last else ["HT9", "UZr"][i % 2], 25.0, 450.0)
     return ("Custom", 25.0, 25.0)
 
 
@@ -87,7 +91,7 @@ def make_block(name, areas, height, family="circle", salt=0):
     total = float(sum(areas))
     for i, a in enumerate(areas):
         cname = "%s-c%d" % (name, i)
-        mat, tin, thot = _materials(family, i + salt)
+        mat, tin, thot = _materials(family, i, salt, last=(n >= 2 and i == n - 1))
         if family == "circle":
             c = make_component("Circle", cname, float(a), mat, 1, tin, thot)
         elif family == "hot":
